@@ -36,3 +36,19 @@ impl Drop for OnDrop {
         trace(self.0, 0);
     }
 }
+
+static WS_WRITE_DELAY_US: AtomicU64 = AtomicU64::new(0);
+
+/// Makes every write of a websocket adapter stream linger that many microseconds after the bytes
+/// were handed to the kernel (0 = off, the default). Lets a harness widen the window between
+/// "request written" and "answer read" inside one handshake step.
+pub fn set_ws_write_delay_us(us: u64) {
+    WS_WRITE_DELAY_US.store(us, Ordering::SeqCst);
+}
+
+pub(crate) fn ws_write_delay() {
+    let us = WS_WRITE_DELAY_US.load(Ordering::SeqCst);
+    if us > 0 {
+        std::thread::sleep(std::time::Duration::from_micros(us));
+    }
+}
